@@ -355,5 +355,8 @@ Example columns_nonvacuous :
     flush s = Ok (ops, reset s) /\
     track None ops = Some ([(0, 0); (0, 1); (0, 2); (0, 3); (0, 4); (0, 5); (1, 1); (1, 2)], None).
 Proof.
-  eexists. eexists. eexists. split; [vm_compute; reflexivity|]. split; vm_compute; reflexivity.
+  (* one goal at a time: normalising a goal that still contains an uninstantiated variable
+     would unfold the width tables symbolically *)
+  eexists. eexists. eexists. split; [vm_compute; reflexivity|]. split; [vm_compute; reflexivity|].
+  vm_compute. reflexivity.
 Qed.
